@@ -251,4 +251,84 @@ theorem rebased_index_changes_the_reserve :
     requiredAfter txs txid 7 = 0 ∧ requiredAfter txs (txid - start) 7 = 30 := by
   decide
 
+/-! ### The reserve only shrinks as the block advances -/
+
+/-- The unsaturated cost of `a`'s transactions in `[k + d, k + d + m)` is at most that in
+    `[k, k + d + m)`. -/
+theorem sumFrom_drop_le (txs : List Tx) (a k m d : Nat) :
+    sumFrom txs a (k + d) m ≤ sumFrom txs a k (m + d) := by
+  induction d generalizing k with
+  | zero => simp
+  | succ d ih =>
+      have h1 := ih (k + 1)
+      have h2 := sumFrom_tail_le txs a k (m + d)
+      have e : k + 1 + d = k + (d + 1) := by omega
+      rw [e] at h1
+      have e2 : m + (d + 1) = m + d + 1 := by omega
+      rw [e2]
+      omega
+
+/-- **required_after_antitone.** What an account must keep for its later transactions never grows
+    as the block advances: asked at a later index the planner demands at most what it demanded at
+    an earlier one. -/
+theorem required_after_antitone (txs : List Tx) (a i j : Nat) (hij : i ≤ j) (hj : j < txs.length) :
+    requiredAfter txs j a ≤ requiredAfter txs i a := by
+  rw [planner_spec txs j a hj, planner_spec txs i a (by omega), requiredSpec, requiredSpec,
+    reqFrom_eq_min, reqFrom_eq_min]
+  have h := sumFrom_drop_le txs a (i + 1) (txs.length - (j + 1)) (j - i)
+  have e1 : i + 1 + (j - i) = j + 1 := by omega
+  have e2 : txs.length - (j + 1) + (j - i) = txs.length - (i + 1) := by omega
+  rw [e1, e2] at h
+  simp only [Nat.min_def]
+  split <;> split <;> omega
+
+/-- **last_transaction_unconstrained.** Nothing is reserved behind the last transaction of the
+    block, so the policy cannot revert it. -/
+theorem required_after_last (txs : List Tx) (a i : Nat) (h : i + 1 = txs.length) :
+    requiredAfter txs i a = 0 := by
+  rw [planner_spec txs i a (by omega), requiredSpec]
+  have e : txs.length - (i + 1) = 0 := by omega
+  rw [e]; rfl
+
+theorem last_transaction_never_violates (txs : List Tx) (i : Nat) (h : i + 1 = txs.length)
+    (debits : List Debit) : violates txs i debits = false :=
+  no_future_cost_no_violation txs i debits (fun d _ => required_after_last txs d.address i h)
+
+/-- The unsaturated sum over a range in which `a` sends nothing is zero. -/
+theorem sumFrom_eq_zero (txs : List Tx) (a k m : Nat)
+    (h : ∀ x, k ≤ x → x < k + m → (txs.getD x default).caller ≠ a) : sumFrom txs a k m = 0 := by
+  induction m generalizing k with
+  | zero => rfl
+  | succ m ih =>
+      rw [sumFrom_succ, ih (k + 1) (fun x h1 h2 => h x (by omega) (by omega))]
+      have hk := h k (Nat.le_refl _) (by omega)
+      have hb : ((txs.getD k default).caller == a) = false := by simpa using hk
+      rw [hb]; rfl
+
+/-- **no_later_transaction_no_reserve.** An account that sends no later transaction of the block
+    is never protected: only accounts with transactions still to come can cause a forced revert. -/
+theorem required_after_no_later_tx (txs : List Tx) (a i : Nat) (hi : i < txs.length)
+    (h : ∀ x, i < x → x < txs.length → (txs.getD x default).caller ≠ a) :
+    requiredAfter txs i a = 0 := by
+  rw [planner_spec txs i a hi, requiredSpec, reqFrom_eq_min,
+    sumFrom_eq_zero txs a (i + 1) _ (fun x h1 h2 => h x (by omega) (by omega))]
+  simp
+
+/-- **debit_ok_stays_ok.** A smaller demand cannot turn an accepted debit into a violation: a
+    debit (`before`, `final`) that respects the reserve when judged at an earlier index respects
+    it when judged at any later one. -/
+theorem debit_ok_stays_ok (txs : List Tx) (a i j : Nat) (hij : i ≤ j) (hj : j < txs.length)
+    (before final : Nat) (h : ¬ final < min before (requiredAfter txs i a)) :
+    ¬ final < min before (requiredAfter txs j a) := by
+  have := required_after_antitone txs a i j hij hj
+  simp only [Nat.min_def] at *
+  split at h <;> split <;> omega
+
+/-- Non-vacuity of `required_after_antitone` / `required_after_no_later_tx`. -/
+example :
+    let txs : List Tx := [⟨1, some 10⟩, ⟨7, some 30⟩, ⟨2, none⟩, ⟨1, some 5⟩, ⟨7, some 50⟩]
+    requiredAfter txs 3 7 ≤ requiredAfter txs 0 7 ∧ requiredAfter txs 3 7 = 50 ∧
+      requiredAfter txs 3 1 = 0 := by
+  decide
+
 end Grevm.Reserve
